@@ -28,6 +28,11 @@ Evaluation forms and histories (the clauses are the same, tags xs / hist say how
                   Legendre tables, ElementGlobal keeps its inverse Vandermonde matrices: for the latter every call is
                   followed by a call on another mesh)
     every mesh contains a negatively oriented cell (det DF < 0) and both orientations are among the chosen cells.
+    tl = 1        the cell was evaluated through a cell list of exactly nt entries (permuted, with a repeat, the cell not
+                  at its own position) -- every second chosen cell, for the Map / Deriv / Dual / PoU events
+    CellList events  explicit cell lists of every shape (natural, permutation, nt entries with repeats, subsets sorted /
+                  unsorted / with repeats, single cell, longer than nt, owners of the boundary facets; int32 / int64;
+                  shared and per-element points) against the single-cell evaluations (CellListCommutes)
 Python decides nothing: it chooses where to sample, calls the library and changes representation (fx).
 """
 import json
